@@ -1,3 +1,287 @@
-(* C03: placeholder for the static mask analysis (see Proofs/PrivacyProofs.v for the theorems
-   available so far). *)
-From CC Require Import Base.Prelude.
+(* C03: the static mask analysis [maskcheck] on compiled (inlined, elementwise-fragment) graphs.
+
+   Reading of a compiled graph (the ring reading of Model/RingEval.v made total): every array of
+   the program is one element of a commutative ring R; the output of the PRF node with id i is
+   the cell [t i] of an idealised random tape t : Z -> R (independent uniform values; distinctness
+   of (key, iv) pairs is C04's statement); PRF keys are the constant [RKey].
+
+   For an observer party p the analysis computes, per node, which tape cells the node can depend
+   on (supp), in which cells its value is affine with slope +-1 (lin), and whether the node is
+   determined by p's view (vd: p's and public inputs, constants, PRF values under keys p holds,
+   everything delivered to p, everything computed from those).  Every node delivered to p
+   (annotation Send s p, s <> p) must be of one of the forms
+     K   computable from p's view anyway,
+     Key a PRF key,
+     E'  a copy of the revealed output (p is an output party),
+     E   the one missing summand of the revealed output, all other summands being in p's view,
+     M   masked by a fresh tape cell under a key p does not hold (one-time pad, triangular).
+   Soundness (Proofs/MaskCheckProofs.v): acceptance implies a bijection of the tape space under
+   which p's whole view coincides for any two admissible input vectors. *)
+From CC Require Import Base.Prelude Base.Scalar Base.Ty Base.Shape Graph.Value Graph.IR
+  Model.RingEval Model.Knows.
+
+Definition zget {A} (l : list A) (i : Z) (d : A) : A := match znth l i with Ok v => v | _ => d end.
+Definition zmem (x : Z) (l : list Z) : bool := existsb (Z.eqb x) l.
+Definition zunion (a b : list Z) : list Z := a ++ filter (fun x => negb (zmem x a)) b.
+Definition isSome {A} (o : option A) : bool := match o with Some _ => true | None => false end.
+
+(* ------------------------------------------------------------------ node-by-node builders *)
+(* one value per node, in node order; [sem i nd look ins]: value of node i from the values of
+   earlier nodes (look) and the not yet consumed inputs; an Input node consumes one input
+   (same threading as RingEval.reval) *)
+Section Build.
+  Context {A I : Type}.
+  Variable dflt : A.
+  Variable sem : Z -> node -> (Z -> A) -> list I -> A.
+  Fixpoint build (nodes : list node) (acc : list A) (ins : list I) : list A :=
+    match nodes with
+    | [] => acc
+    | nd :: r => build r (acc ++ [sem (Z.of_nat (length acc)) nd (fun d => zget acc d dflt) ins])
+                       (if is_input (n_op nd) then tl ins else ins)
+    end.
+End Build.
+
+(* ------------------------------------------------------------------ total ring evaluation *)
+Section MVal.
+  Variable R : Type.
+  Variables (r0 : R) (radd rmul rsub : R -> R -> R).
+  Variable catom : value -> R.     (* value of a program constant *)
+  Variable one : R.                (* the all-ones array *)
+  Notation rval := (rval R).
+
+  Definition leaf (v : rval) : R := match v with RLeaf _ x => x | _ => r0 end.
+
+  (* RingEval.reval_node made total: an ill-shaped application yields the default RKey, and the
+     arithmetic operations read a non-leaf operand as r0 *)
+  Definition mnode (t : Z -> R) (i : Z) (o : op) (vs : list rval) : rval :=
+    match o with
+    | OZeros (TScalar _) | OZeros (TArray _ _) => RLeaf R r0
+    | OOnes (TScalar _) | OOnes (TArray _ _) => RLeaf R one
+    | OConstant (TScalar _) v | OConstant (TArray _ _) v => RLeaf R (catom v)
+    | ORandom _ => RKey R
+    | OPRF _ _ => RLeaf R (t i)
+    | OAdd => match vs with [a; b] => RLeaf R (radd (leaf a) (leaf b)) | _ => RKey R end
+    | OSubtract => match vs with [a; b] => RLeaf R (rsub (leaf a) (leaf b)) | _ => RKey R end
+    | OMultiply => match vs with [a; b] => RLeaf R (rmul (leaf a) (leaf b)) | _ => RKey R end
+    | ONOP => match vs with [v] => v | _ => RKey R end
+    | OCreateTuple => RTup R vs
+    | OTupleGet j => match vs with [RTup _ l] => zget l j (RKey R) | _ => RKey R end
+    | _ => RKey R
+    end.
+
+  Definition msem (t : Z -> R) (i : Z) (nd : node) (look : Z -> rval) (ins : list rval) : rval :=
+    match n_op nd with
+    | OInput _ => hd (RKey R) ins
+    | o => mnode t i o (map look (n_deps nd))
+    end.
+
+  (* values of all nodes, in node order, for tape t and inputs ins *)
+  Definition mval (t : Z -> R) (ins : list rval) (nodes : list node) : list rval :=
+    build (RKey R) (msem t) nodes [] ins.
+  Definition nval (t : Z -> R) (ins : list rval) (nodes : list node) (i : Z) : rval :=
+    zget (mval t ins nodes) i (RKey R).
+End MVal.
+
+(* ------------------------------------------------------------------ static information *)
+Inductive kind := KdLeaf | KdKey | KdUnk.
+Definition kind_eqb (a b : kind) : bool :=
+  match a, b with KdLeaf, KdLeaf | KdKey, KdKey | KdUnk, KdUnk => true | _, _ => false end.
+
+Record ninfo := mkNI {
+  ni_supp : list Z;              (* tape cells the value may depend on *)
+  ni_lin : list (Z * bool);      (* cells with slope +1 (false) / -1 (true) *)
+  ni_vd : bool;                  (* determined by the observer's view *)
+  ni_pre : bool;                 (* determined by the view even without being delivered *)
+  ni_kind : kind                 (* always a leaf / always a key / unknown *)
+}.
+Definition ni_default : ninfo := mkNI [] [] false false KdUnk.
+
+Definition is_deliv (p : party) (nd : node) : bool :=
+  existsb (fun a => match a with ASend s r => (r =? p) && negb (s =? p) | _ => false end) (n_annots nd).
+
+Definition dsupp (ds : list ninfo) : list Z := fold_right (fun a u => zunion (ni_supp a) u) [] ds.
+Definition lin_keep (excl : list Z) (l : list (Z * bool)) : list (Z * bool) :=
+  filter (fun e => negb (zmem (fst e) excl)) l.
+Definition lin_flip (l : list (Z * bool)) : list (Z * bool) := map (fun e => (fst e, negb (snd e))) l.
+
+Definition isem (c : config) (p : party) (i : Z) (nd : node) (look : Z -> ninfo) (sts : list status) : ninfo :=
+  let ds := map look (n_deps nd) in
+  let o := n_op nd in
+  let supp := match o with OPRF _ _ => [i] | _ => dsupp ds end in
+  let lin := match o with
+             | OPRF _ _ => [(i, false)]
+             | OAdd => match ds with
+                       | [a; b] => lin_keep (ni_supp b) (ni_lin a) ++ lin_keep (ni_supp a) (ni_lin b)
+                       | _ => [] end
+             | OSubtract => match ds with
+                            | [a; b] => lin_keep (ni_supp b) (ni_lin a) ++ lin_flip (lin_keep (ni_supp a) (ni_lin b))
+                            | _ => [] end
+             | ONOP => match ds with [a] => ni_lin a | _ => [] end
+             | _ => []
+             end in
+  let kd := match o with
+            | ORandom _ => KdKey
+            | OPRF _ _ => KdLeaf
+            | OZeros (TScalar _) | OZeros (TArray _ _) | OOnes (TScalar _) | OOnes (TArray _ _)
+            | OConstant (TScalar _) _ | OConstant (TArray _ _) _ => KdLeaf
+            | OAdd | OSubtract | OMultiply => match ds with [_; _] => KdLeaf | _ => KdKey end
+            | ONOP => match ds with [a] => ni_kind a | _ => KdKey end
+            | _ => KdUnk
+            end in
+  let pre := match o with
+             | OInput _ => match sts with
+                           | StParty q :: _ => q =? p
+                           | StPublic :: _ => true
+                           | _ => false end
+             | OZeros _ | OOnes _ | OConstant _ _ => true
+             | ORandom _ => cert_of c i =? p
+             | _ => forallb ni_vd ds
+             end in
+  mkNI supp lin (is_deliv p nd || pre) pre kd.
+
+Definition infos (c : config) (p : party) (nodes : list node) : list ninfo :=
+  build ni_default (isem c p) nodes [] (cfg_inputs c).
+Definition info_at (c : config) (p : party) (nodes : list node) (i : Z) : ninfo :=
+  zget (infos c p nodes) i ni_default.
+(* node i is part of the observer's view *)
+Definition mc_vd (c : config) (p : party) (nodes : list node) (i : Z) : bool :=
+  ni_vd (info_at c p nodes i).
+
+(* ------------------------------------------------------------------ reveal patterns *)
+(* the output node and, transitively, the dependency of every NOP on the chain *)
+Fixpoint outchain (nodes : list node) (fuel : nat) (i : Z) : list Z :=
+  match fuel with
+  | O => [i]
+  | S f =>
+      i :: match znth nodes i with
+           | Ok nd => match n_op nd, n_deps nd with
+                      | ONOP, [d] => if (0 <=? d) && (d <? i) then outchain nodes f d else []
+                      | _, _ => []
+                      end
+           | _ => []
+           end
+  end.
+
+(* [etree I nodes fuel n i = Some b]: the value of node i is a sum whose summands are node n
+   (exactly once if b, not at all otherwise) and view-determined nodes with id < n *)
+Fixpoint etree (I : list ninfo) (nodes : list node) (fuel : nat) (n i : Z) : option bool :=
+  match fuel with
+  | O => None
+  | S f =>
+      if i =? n then Some true
+      else if (i <? n) && ni_vd (zget I i ni_default) then Some false
+      else match znth nodes i with
+           | Ok nd =>
+               match n_op nd, n_deps nd with
+               | OAdd, [a; b] =>
+                   if (0 <=? a) && (a <? i) && (0 <=? b) && (b <? i) then
+                     match etree I nodes f n a, etree I nodes f n b with
+                     | Some x, Some y => if x && y then None else Some (x || y)
+                     | _, _ => None
+                     end
+                   else None
+               | _, _ => None
+               end
+           | _ => None
+           end
+  end.
+
+(* ------------------------------------------------------------------ deliveries and masks *)
+Fixpoint deliveries_go (p : party) (nodes : list node) (i : Z) : list Z :=
+  match nodes with
+  | [] => []
+  | nd :: r => (if is_deliv p nd then [i] else []) ++ deliveries_go p r (i + 1)
+  end.
+Definition deliveries (p : party) (nodes : list node) : list Z := deliveries_go p nodes 0.
+
+Definition mask := (Z * bool * Z)%type.        (* (cell, negated, delivered node) *)
+Definition mask_cells (M : list mask) : list Z := map (fun m => fst (fst m)) M.
+
+(* classes K, Key, E', E: acceptance without a mask *)
+Definition deliv_free (I : list ninfo) (nodes : list node) (outp : bool) (chain : list Z) (n : Z) : bool :=
+  let inf := zget I n ni_default in
+  ni_pre inf
+  || kind_eqb (ni_kind inf) KdKey
+  || (outp && zmem n chain)
+  || (outp && kind_eqb (ni_kind inf) KdLeaf &&
+      match etree I nodes (length nodes) n (last chain 0) with Some true => true | _ => false end).
+
+Definition deliv_okb (I : list ninfo) (nodes : list node) (outp : bool) (chain : list Z) (M : list mask) (n : Z) : bool :=
+  deliv_free I nodes outp chain n || existsb (fun m => snd m =? n) M.
+
+(* the triangular one-time-pad condition on the recorded masks, in order: the mask is a +-1
+   slope cell of its delivery, under a key the observer does not hold, distinct from all later
+   masks, and no later mask occurs in the support of this delivery *)
+Fixpoint masks_okb (I : list ninfo) (M : list mask) : bool :=
+  match M with
+  | [] => true
+  | (cell, s, n) :: r =>
+      existsb (fun e => (fst e =? cell) && Bool.eqb (snd e) s) (ni_lin (zget I n ni_default))
+      && negb (ni_vd (zget I cell ni_default))
+      && negb (zmem cell (mask_cells r))
+      && forallb (fun c => negb (zmem c (ni_supp (zget I n ni_default)))) (mask_cells r)
+      && masks_okb I r
+  end.
+
+(* greedy choice of the masks (class M): first slope cell that is not own, not yet used and not
+   in the support of an earlier masked delivery *)
+Definition find_step (I : list ninfo) (nodes : list node) (outp : bool) (chain : list Z)
+           (st : list mask * list Z) (n : Z) : list mask * list Z :=
+  let (M, ms) := st in
+  if deliv_free I nodes outp chain n then st
+  else
+    let inf := zget I n ni_default in
+    match find (fun e => negb (ni_vd (zget I (fst e) ni_default)) && negb (zmem (fst e) (mask_cells M))
+                         && negb (zmem (fst e) ms)) (ni_lin inf) with
+    | Some (cell, s) => (M ++ [(cell, s, n)], zunion ms (ni_supp inf))
+    | None => st
+    end.
+
+Definition is_shared (s : status) : bool := match s with StShared => true | _ => false end.
+Definition inputs_okb (c : config) (nodes : list node) : bool :=
+  negb (existsb is_shared (cfg_inputs c))
+  && (length (filter (fun nd => is_input (n_op nd)) nodes) =? length (cfg_inputs c))%nat.
+
+(* the reading is meaningful only on the elementwise fragment of RingEval.v, and the idealisation
+   of the PRF as one independent cell per PRF node needs pairwise distinct counters (C04) *)
+Definition frag_op (o : op) : bool :=
+  match o with
+  | OInput _ | OZeros _ | OOnes _ | OConstant _ _ | ORandom _ | OPRF _ _ | OAdd | OSubtract | OMultiply
+  | ONOP | OCreateTuple | OTupleGet _ => true
+  | _ => false
+  end.
+Definition prf_ivs (nodes : list node) : list Z :=
+  flat_map (fun nd => match n_op nd with OPRF iv _ => [iv] | _ => [] end) nodes.
+Fixpoint znodup (l : list Z) : bool :=
+  match l with [] => true | x :: r => negb (zmem x r) && znodup r end.
+Definition graph_okb (nodes : list node) : bool :=
+  forallb (fun nd => frag_op (n_op nd)) nodes && znodup (prf_ivs nodes).
+Definition wf_okb (c : config) (nodes : list node) : bool := inputs_okb c nodes && graph_okb nodes.
+
+Definition maskcheck (c : config) (p : party) (nodes : list node) (out : Z) : option (list mask) :=
+  let I := infos c p nodes in
+  let outp := zmem p (cfg_outputs c) in
+  let chain := outchain nodes (length nodes) out in
+  let dl := deliveries p nodes in
+  let M := fst (fold_left (find_step I nodes outp chain) dl ([], [])) in
+  if wf_okb c nodes && masks_okb I M && forallb (deliv_okb I nodes outp chain M) dl
+  then Some M else None.
+
+(* tie with C02: every node the knowledge analysis of Model/Knows.v (proved sound there) says the
+   observer validly holds is counted in the observer's view here *)
+Definition viewcover (c : config) (p : party) (nodes : list node) : bool :=
+  let I := infos c p nodes in
+  match know_all c nodes with
+  | Ok ks => forallb (fun ik => negb (pmem p (kmeet (snd ik))) || ni_vd (zget I (fst ik) ni_default))
+                     (combine (zrange (Z.of_nat (length ks))) ks)
+  | _ => false
+  end.
+
+(* diagnostic: the deliveries that are not accepted *)
+Definition mc_rejected (c : config) (p : party) (nodes : list node) (out : Z) : list Z :=
+  let I := infos c p nodes in
+  let outp := zmem p (cfg_outputs c) in
+  let chain := outchain nodes (length nodes) out in
+  let dl := deliveries p nodes in
+  let M := fst (fold_left (find_step I nodes outp chain) dl ([], [])) in
+  filter (fun n => negb (deliv_okb I nodes outp chain M n)) dl.
